@@ -5,3 +5,4 @@ pub mod ws;
 pub mod multipart;
 pub mod router;
 pub mod files;
+pub mod routing;
